@@ -23,3 +23,7 @@ package p2p
 //@   modifies *
 //@   ensures [announcedIdIsTheAuthenticatedKey] err == nil ==> nodeIDOf(nodeInfo) == connID
 //@   ensures [dialedPeerIsTheOneReached] err == nil && dialedAddr != nil ==> connID == dialedID
+
+// Stopping a peer for an error removes it from the switch (goroutines, peer set): trusted, any effect.
+//@ trusted func (sw *Switch) StopPeerForError(peer Peer, reason interface{})
+//@   modifies *
